@@ -472,7 +472,7 @@ func (s *Storage) Find(id string) (p *Persistent, ok bool) {
 		return nil, false
 	}
 
-	foundMAC := s.dhcp.MACByIP(ip)
+	foundMAC := s.dhcp.MACByIP(ip.Unmap())
 	if foundMAC != nil {
 		return s.FindByMAC(foundMAC)
 	}
@@ -496,12 +496,12 @@ func (s *Storage) FindLoose(ip netip.Addr, id string) (p *Persistent, ok bool) {
 		return p.ShallowClone(), ok
 	}
 
-	foundMAC := s.dhcp.MACByIP(ip)
+	foundMAC := s.dhcp.MACByIP(ip.Unmap())
 	if foundMAC != nil {
 		return s.FindByMAC(foundMAC)
 	}
 
-	p = s.index.findByIPWithoutZone(ip)
+	p = s.index.findByIPWithoutZone(ip.Unmap())
 	if p != nil {
 		return p.ShallowClone(), true
 	}
@@ -691,7 +691,7 @@ func (s *Storage) ApplyClientFiltering(id string, addr netip.Addr, setts *filter
 	}
 
 	if !ok {
-		foundMAC := s.dhcp.MACByIP(addr)
+		foundMAC := s.dhcp.MACByIP(addr.Unmap())
 		if foundMAC != nil {
 			c, ok = s.FindByMAC(foundMAC)
 		}
